@@ -23,7 +23,7 @@ TOGGLES = [
     "alias_scalars", "component_parameters", "component_bodies", "component_responses", "path_item_parameters",
     "same_name_two_locations", "multi_body", "multipart", "form", "octet", "text_responses", "plus_json",
     "no_content", "security", "tags", "defaults", "descriptions", "query_arrays", "header_params",
-    "cookie_params", "shared_paths", "inline_response_objects", "shuffle_decl", "media_type_params", "item_level_name_clash", "multi_media_responses", "wrapped_refs", "rich_form_fields", "reserved_param_names", "python_name_clash", "noise_responses", "trailing_slash_paths", "prefix_names", "inline_in_aliases", "inline_allof", "shared_body_models", "decorations", "shared_components", "no_operation_id", "long_paths", "coinciding_enums", "http_header_names", "titles", "embedded_placeholders",
+    "cookie_params", "shared_paths", "inline_response_objects", "shuffle_decl", "media_type_params", "item_level_name_clash", "multi_media_responses", "wrapped_refs", "rich_form_fields", "reserved_param_names", "python_name_clash", "noise_responses", "trailing_slash_paths", "prefix_names", "inline_in_aliases", "inline_allof", "shared_body_models", "decorations", "shared_components", "no_operation_id", "long_paths", "coinciding_enums", "http_header_names", "titles", "embedded_placeholders", "root_security",
 ]
 
 PROP_VOCAB = [
@@ -890,6 +890,8 @@ class DocGen:
                 op["responses"] = resps
                 if self.on("security") and r.random() < 0.5:
                     op["security"] = [{"simKey": []}]
+                elif self.on("security") and self.on("root_security") and r.random() < 0.3:
+                    op["security"] = []  # explicit opt-out of the document-level requirement
                 if self.on("tags") and r.random() < 0.7:
                     op["tags"] = r.sample(["alpha-tag", "Beta", "gamma_t"], r.choice([1, 1, 2]))
                 if self.on("descriptions") and r.random() < 0.3:
@@ -1045,6 +1047,8 @@ class DocGen:
             doc["info"].update({"contact": {"name": "n", "email": "a@example.com"}, "license": {"name": "MIT"}, "termsOfService": "https://example.com/tos"})
         if r.random() < 0.2:
             doc["x-vendor"] = {"a": [1, {"b": None}]}
+        if self.on("security") and self.on("root_security"):
+            doc["security"] = [{"simKey": []}]  # document-level requirement: the default of every operation without its own `security`
         if r.random() < 0.2 and self.on("security"):
             doc.setdefault("components", {}).setdefault("securitySchemes", {}).update(
                 {"bearer": {"type": "http", "scheme": "bearer"}, "oauth": {"type": "oauth2", "flows": {"implicit": {"authorizationUrl": "https://example.com/auth", "scopes": {"r": "read"}}}}})
